@@ -50,13 +50,16 @@ RULE = ("graphs: four types x shapes (empty, isolated vertices, paths, stars, co
         "backward edges) + hand-written corpus + random token soups; distinct = distinct request line; "
         "non-trivial = graph with an edge / text with a digit")
 ASSUMPTIONS = [
-    "texts are ASCII (Python's int() also accepts non-ASCII decimal digits; outside the lexer model)",
+    "decimal digits are ASCII (Python's int() also accepts non-ASCII decimal digits; outside the lexer model); other non-ASCII "
+    "characters (blanks, line separators, letters) occur in the generated names and texts",
+    "numbers of 7..4300 digits are not sent to the model as sizes (list-based model; the real classes would allocate as much)",
     "streams are io.StringIO or files of a private temp dir; a text-mode file translates \\r\\n to \\n before the reader",
 ]
 TRUSTED_EXTRA = [
     "gml / dot: networkx.read_gml / write_gml, networkx.nx_pydot.read_dot / write_dot (pydot) are third party and not "
     "modelled; the model covers normalize_networkx_labels + from_networkx on the node/edge lists they return",
-    "the lexer (Python str.split/strip/int on ASCII) is compared on every read request, not proven",
+    "the lexer (model of Python readlines/str.split/strip/int, ASCII decimal digits) is proven to invert the in-house writers on "
+    "their own output (Props/C14/Text.lean); on every other text it is compared on every read / readf request, not proven",
 ]
 NOTES = []
 
@@ -459,6 +462,25 @@ CORPUS_3P = [
 ]
 
 
+HUGE_RE = re.compile(r"[0-9]+")
+
+
+def huge(text):
+    """a number of 7 .. 4300 digits: as a declared size it makes the list-based model (and, for kthlist / dimacs, the real
+    classes too) allocate that many adjacency lists.  Such texts are outside the resource range of the correspondence; the
+    matrix reader (dict-based bipartite graphs) still handles them, so there the oracle runs."""
+    return any(6 < len(m.group().lstrip("0")) <= 4300 for m in HUGE_RE.finditer(text))
+
+
+def build_huge(suite, info, via):
+    ty, fmt, text = info["ty"], info["fmt"], info["text"]
+
+    def impl():
+        return ok("-")
+    return Case(suite, "ack3p", impl, read_oracle(text, ty, fmt, via) if fmt == "matrix" else None,
+                cls="{}:{}:huge-number".format(fmt, ty), nontrivial=False, info=info)
+
+
 # ---------------------------------------------------------------- build
 def graph_nontrivial(g):
     return len(g["edges"]) > 0
@@ -497,6 +519,8 @@ def build(suite, info):
             cls = "dot:n>=10" if order >= 10 else "dot:n<10"
         return Case(suite, r, impl, roundtrip_oracle(ty, fmt, g, info.get("name"), info.get("via", "stringio")),
                     cls=cls, nontrivial=graph_nontrivial(g), info=info)
+    if suite in ("read", "readf") and huge(info["text"]):
+        return build_huge(suite, info, "stringio" if suite == "read" else "file")
     if suite == "read":
         ty, fmt, text = info["ty"], info["fmt"], info["text"]
 
@@ -768,6 +792,8 @@ CORPUS_TEXTS = [
     ("dimacs", "simple", "\u00a0p\u2003edge 2 1\x85\ne\u30001\u20282\n", "odd-space"), ("matrix", "bipartite", "1\u00a02\x851\u20280", "odd-space"),
     ("kthlist", "simple", "c caf\u00e9\n2\n1 : 2 0\n", "non-ascii"), ("dimacs", "simple", "c \u4e2d\np edge 2 1\ne 1 2\n\u00e9 1 2\n", "non-ascii"),
     ("kthlist", "simple", "2\n1 : 2 0 \u00e9\n", "non-ascii"), ("matrix", "bipartite", "1 1\n1\n#\u00e9\n", "non-ascii"),
+    # a declared size beyond any memory: matrix files are still answered (ValueError: the entries are missing)
+    ("matrix", "bipartite", "100000000000 3\n1 0 1\n", "huge"), ("matrix", "bipartite", "2 99999999\n1 0\n", "huge"),
     # formats that are not supported for the type
     ("matrix", "simple", "1 1\n1\n", "unsupported"), ("dimacs", "bipartite", "p edge 2 1\ne 1 2\n", "unsupported"), ("matrix", "dag", "0 0\n", "unsupported"),
 ]
